@@ -693,6 +693,18 @@ pub fn op_memhist(cx: &mut Ctx, c: &Value) {
                     _ => { bad = Some(at(format!("decode = {:?}, the definition gives {:?}", r, dec.as_ref().map(|y| y.len())))); let cur = rd(db, d0, cap).to_vec(); sh[db][d0..d0 + cap].copy_from_slice(&cur); }
                 }
             }
+            12 => { // prefetch hints over a range: advisory, must neither fault nor change anything
+                use zipora::memory::PrefetchHint;
+                let b = arg(op, 2) & 1; let (off, len) = rng_in(lens[b], arg(op, 3), arg(op, 4));
+                let x = rd(b, off, len);
+                let hint = [PrefetchHint::T0, PrefetchHint::T1, PrefetchHint::T2, PrefetchHint::NTA][w % 4];
+                let r = guarded(|| {
+                    zipora::memory::fast_prefetch_range(x); zipora::memory::fast_prefetch(x, hint);
+                    let m = &o.presets[w % o.presets.len()].1;
+                    m.prefetch_range(x); if len > 0 { m.prefetch(x.as_ptr(), hint); o.mem.prefetch(unsafe { x.as_ptr().add(len - 1) }, hint); }
+                });
+                if let Err(p) = r { bad = Some(at(format!("prefetch panicked: {}", p))); }
+            }
             _ => {}
         }
         // the buffers must equal their shadows and nothing around them may have been touched
@@ -722,7 +734,7 @@ pub fn gen_memhist(cx: &mut Ctx, r: &mut Rng, count: usize) {
         let ln = |r: &mut Rng, l: usize| -> usize { if r.chance(2, 3) { *r.pick(&lens_pool) } else { r.below(l as u64 + 1) as usize } };
         for _ in 0..nops {
             let w = r.below(60) as usize;
-            let code = *r.pick(&[0usize, 0, 1, 1, 1, 1, 2, 2, 2, 3, 3, 4, 4, 5, 5, 6, 7, 8, 9, 10, 11]);
+            let code = *r.pick(&[0usize, 0, 1, 1, 1, 1, 2, 2, 2, 3, 3, 4, 4, 5, 5, 6, 7, 8, 9, 10, 11, 12]);
             let (b1, b2) = (r.below(2) as usize, r.below(2) as usize);
             let (l1, l2) = (if b1 == 0 { la } else { lb }, if b2 == 0 { la } else { lb });
             let op = match code {
@@ -731,7 +743,7 @@ pub fn gen_memhist(cx: &mut Ctx, r: &mut Rng, count: usize) {
                 2 => { let o1 = off(r, l1); let n1 = ln(r, l1); let same = r.chance(2, 3); json!([2, w, b1, o1, n1, b2, if same { o1 } else { off(r, l2) }, if r.chance(1, 2) { n1 } else { n1 + 1 }]) }
                 3 => json!([3, w, b1, off(r, l1), ln(r, l1), *r.pick(&[b'a', b'b', 0x80u8, 0xFF, 0, b'=', b'x'])]),
                 4 => json!([4, w, b1, off(r, l1), ln(r, l1), b2, off(r, l2), *r.pick(&[1usize, 2, 3, 8, 15, 16, 17, 31, 32, 33, 40])]),
-                5 => json!([5, w, b1, off(r, l1), ln(r, l1)]),
+                5 | 12 => json!([code, w, b1, off(r, l1), ln(r, l1)]),
                 6 => json!([6, w]),
                 7 => json!([7, w, b1, off(r, l1), ln(r, l1)]),
                 8 | 10 => json!([code, w, b1, off(r, l1), *r.pick(&[1usize, 2, 3, 16, 31, 33, 48, 64, 100]), b2, off(r, l2)]),
@@ -1010,6 +1022,40 @@ pub fn op_enum(cx: &mut Ctx, c: &Value) {
             check!(cx, cell, &cj, p.to_lowercase_ascii_bmi2(st).into_bytes(), all.iter().map(|&b| if (b'A'..=b'Z').contains(&b) { b + 32 } else { b }).collect::<Vec<_>>(), "to_lowercase_ascii_bmi2 over all ASCII");
             check!(cx, cell, &cj, p.to_uppercase_ascii_bmi2(st).into_bytes(), all.iter().map(|&b| if (b'a'..=b'z').contains(&b) { b - 32 } else { b }).collect::<Vec<_>>(), "to_uppercase_ascii_bmi2 over all ASCII");
         }
+        "macros" => {
+            // the dispatch macros: the arm taken is the first one whose features the CPU has (std detection)
+            let f = |n: &str| -> bool { match n { "avx2" => std::is_x86_feature_detected!("avx2"), "sse2" => std::is_x86_feature_detected!("sse2"), "sse4.2" => std::is_x86_feature_detected!("sse4.2"),
+                "bmi2" => std::is_x86_feature_detected!("bmi2"), "popcnt" => std::is_x86_feature_detected!("popcnt"), _ => false } };
+            fn d3() -> &'static str { zipora::simd_dispatch!(avx512 => "avx512", avx2 => "avx2", sse2 => "sse2", _ => "scalar") }
+            fn d2() -> &'static str { zipora::simd_dispatch!(avx2 => "avx2", sse2 => "sse2", _ => "scalar") }
+            fn db() -> &'static str { zipora::simd_dispatch!(avx2_bmi2 => "avx2_bmi2", avx2 => "avx2", _ => "scalar") }
+            fn d1() -> &'static str { zipora::simd_dispatch!(avx2 => "avx2", _ => "scalar") }
+            fn ds() -> &'static str { zipora::simd_dispatch!(sse42 => "sse42", _ => "scalar") }
+            fn dm() -> &'static str { zipora::simd_dispatch!(bmi2 => "bmi2", _ => "scalar") }
+            fn dp() -> &'static str { zipora::simd_dispatch!(popcnt => "popcnt", _ => "scalar") }
+            fn d6() -> &'static str { zipora::simd_dispatch!(avx512 => "avx512", avx2_bmi2 => "avx2_bmi2", avx2 => "avx2", sse42_bmi2 => "sse42_bmi2", sse42 => "sse42", bmi2 => "bmi2", _ => "scalar") }
+            fn c1() -> &'static str { zipora::simd_feature_check!("popcnt", "popcnt", "scalar") }
+            fn c2() -> &'static str { zipora::simd_feature_check!("avx2", "bmi2", "avx2+bmi2", "scalar") }
+            let first = |opts: &[(&'static str, bool)]| -> &'static str { opts.iter().find(|o| o.1).map(|o| o.0).unwrap_or("scalar") };
+            // (the avx512 arms exist only under the nightly `avx512` cargo feature, which the build does not enable)
+            check!(cx, cell, &cj, d3(), first(&[("avx2", f("avx2")), ("sse2", f("sse2"))]), "simd_dispatch!(avx512, avx2, sse2, _)");
+            check!(cx, cell, &cj, d2(), first(&[("avx2", f("avx2")), ("sse2", f("sse2"))]), "simd_dispatch!(avx2, sse2, _)");
+            check!(cx, cell, &cj, db(), first(&[("avx2_bmi2", f("avx2") && f("bmi2")), ("avx2", f("avx2"))]), "simd_dispatch!(avx2_bmi2, avx2, _)");
+            check!(cx, cell, &cj, d1(), first(&[("avx2", f("avx2"))]), "simd_dispatch!(avx2, _)");
+            check!(cx, cell, &cj, ds(), first(&[("sse42", f("sse4.2"))]), "simd_dispatch!(sse42, _)");
+            check!(cx, cell, &cj, dm(), first(&[("bmi2", f("bmi2"))]), "simd_dispatch!(bmi2, _)");
+            check!(cx, cell, &cj, dp(), first(&[("popcnt", f("popcnt"))]), "simd_dispatch!(popcnt, _)");
+            check!(cx, cell, &cj, d6(), first(&[("avx2_bmi2", f("avx2") && f("bmi2")), ("avx2", f("avx2")), ("sse42_bmi2", f("sse4.2") && f("bmi2")), ("sse42", f("sse4.2")), ("bmi2", f("bmi2"))]), "simd_dispatch!(six tiers)");
+            check!(cx, cell, &cj, c1(), first(&[("popcnt", f("popcnt"))]), "simd_feature_check!(one feature)");
+            check!(cx, cell, &cj, c2(), first(&[("avx2+bmi2", f("avx2") && f("bmi2"))]), "simd_feature_check!(two features)");
+            check!(cx, cell, &cj, zipora::simd_select!(avx2 => "avx2", _ => "scalar"), first(&[("avx2", f("avx2"))]), "simd_select!(avx2, _)");
+            check!(cx, cell, &cj, zipora::simd_select!(avx2 => "avx2", sse2 => "sse2", _ => "scalar"), first(&[("avx2", f("avx2")), ("sse2", f("sse2"))]), "simd_select!(avx2, sse2, _)");
+            check!(cx, cell, &cj, (zipora::simd_available!("sse4.2"), zipora::simd_available!("avx2", "bmi2")), (f("sse4.2"), f("avx2") && f("bmi2")), "simd_available!");
+            // what the objects under test selected in this process (evidence of the tier actually exercised)
+            let t = format!("tiers @{}: memops {:?}, io search {:?}, string search {:?}, utf8 {:?}, hash_map {:?}, bmi2 {}", cx.tier, cx.objs.mem.tier(),
+                zipora::io::simd_memory::SimdStringSearch::new().tier(), zipora::string::SimdStringSearch::new().tier(), cx.objs.validator.tier(), cx.objs.hm.tier(), cx.objs.bmi2.is_bmi2_available());
+            cx.sum.dist(&t);
+        }
         _ => {}
     }
 }
@@ -1018,7 +1064,7 @@ pub fn op_enum(cx: &mut Ctx, c: &Value) {
 // generators of the new families (deterministic, small)
 // ---------------------------------------------------------------------------------------------
 pub fn generate_wide(cx: &mut Ctx, thorough: bool, r: &mut Rng) {
-    for w in ["hex", "utf8len", "b64len", "classes"] { op_enum(cx, &json!({"which": w})); }
+    for w in ["hex", "utf8len", "b64len", "classes", "macros"] { op_enum(cx, &json!({"which": w})); }
     gen_memhist(cx, r, if thorough { 4000 } else { 400 });
     // cursor histories
     for _ in 0..(if thorough { 2000 } else { 200 }) {
